@@ -896,9 +896,12 @@ def obs_plot(ds):
     return out
 
 
-def with_depth(rng, d):
+def with_depth(rng, d, **kw):
     nm1, _ = gen.DEPTH_NAMES.get(d.family, (None, None))
-    ds, sp = gen.add_depth(rng, d.ds, dim='k', name=nm1, second=False, positive='attr')
+    if 'name_is_dim' in kw:
+        kw.pop('name_is_dim')
+        nm1 = nm1 or 'k'
+    ds, sp = gen.add_depth(rng, d.ds, dim='k', name=nm1, second=False, positive='attr', **kw)
     gd = list(d.spec['kinds']['face'])
     shape = [sp['n']] + [ds.sizes[g] for g in gd]
     vals = (numpy.arange(int(numpy.prod(shape)), dtype='f8') + 1).reshape(shape)
@@ -931,12 +934,22 @@ def obs_floor(ds):
     return {str(v): bylabel(out[v]) for v in sorted(map(str, out.data_vars)) if str(v).startswith('tv_')}
 
 
+def with_depth_bounds(rng, d):
+    # the depth coordinate is the dimension coordinate where the convention leaves the name free, and it has bounds
+    with_depth(rng, d, bounds=True, name_is_dim=True)
+
+
 def obs_normalize(ds):
     res = {}
     for pd, dts in ((True, True), (False, False), (None, True)):
         out = ds.ems.normalize_depth_variables(positive_down=pd, deep_to_shallow=dts)
         res[str((pd, dts))] = {str(c.name): (plain(out[c.name].values), out[c.name].attrs.get('positive')) for c in ds.ems.depth_coordinates}
         res[str((pd, dts))]['field'] = plain(out['tv_depthfield'].values)
+        # the bounds go with their coordinate, wherever the file's reader left their name (attribute or encoding)
+        for c in ds.ems.depth_coordinates:
+            b = c.attrs.get('bounds', c.encoding.get('bounds'))
+            if b is not None and b in out.variables:
+                res[str((pd, dts))][f'bounds of {c.name}'] = plain(out[b].values)
     return res
 
 
@@ -965,7 +978,7 @@ RUNS = {
     'C10': (obs_topology, 'mesh tables and polygons', ['ugrid', 'ugrid_edges', 'ugrid', 'ugrid_square_T', 'ugrid_big_faces', 'ugrid_edge_faces_only'], None, ('lazy', 'raw', 'view_of_file', 'big_endian', 'narrow_tables', 'mixed_precision', 'raw_unsigned')),
     'C11': (obs_detect, 'convention detection', gen.FAMILIES, None, ('lazy', 'raw', 'view_of_file', 'big_endian')),
     'C12': (obs_floor, 'ocean floor', ['cf1d', 'cf2d', 'shoc_standard', 'ugrid'], with_depth, ('lazy', 'raw', 'view_of_file', 'big_endian', 'transposed_view')),
-    'C13': (obs_normalize, 'depth normalisation', ['cf1d', 'shoc_simple', 'ugrid'], with_depth, ('lazy', 'raw', 'view_of_file', 'big_endian')),
+    'C13': (obs_normalize, 'depth normalisation', ['cf1d', 'shoc_simple', 'ugrid'], with_depth_bounds, ('lazy', 'raw', 'view_of_file', 'big_endian')),
     'C14': (obs_triangulate, 'triangulation', gen.FAMILIES + ['ugrid_quads1', 'ugrid_big_faces', 'cf1d_int', 'cf2d_lon_T', 'cf2d_river', 'ugrid_concave'], None, ('lazy', 'raw', 'view_of_file', 'big_endian', 'mixed_precision')),
     'C15': (obs_export, 'geometry export', gen.FAMILIES + ['cf1d_desc', 'cf1d_bounds', 'ugrid_quads1', 'ugrid_big_faces', 'cf1d_int', 'cf2d_lon_T', 'cf2d_river'], None, ('lazy', 'raw', 'view_of_file', 'big_endian', 'mixed_precision')),
     'C18': (obs_transect, 'transect pieces and prepared data', ['cf1d', 'cf2d', 'ugrid'], with_depth, ('lazy', 'view_of_file', 'big_endian', 'transposed_view')),
